@@ -169,9 +169,11 @@ func c11Write(c *mc.Ctx, v c11Val) {
 
 func c11ReadOne(c *mc.Ctx, k c11Read, in []byte) {
 	c.Eval(1)
+	inHex := hex.EncodeToString(in)
+	shown := mc.Hex(in)
 	bad := func(class, format string, a ...interface{}) {
-		k.InputHex = hex.EncodeToString(in)
-		c.Violate("read", fmt.Sprintf("C11|%s|read|%s", k.Kind, class), fmt.Sprintf("%s.FastRead on %s (%s): ", k.Kind, mc.Hex(in), k.Desc)+fmt.Sprintf(format, a...), k)
+		k.InputHex = inHex
+		c.Violate("read", fmt.Sprintf("C11|%s|read|%s", k.Kind, class), fmt.Sprintf("%s.FastRead on %s (%s): ", k.Kind, shown, k.Desc)+fmt.Sprintf(format, a...), k)
 	}
 	pi := mc.Try(func() {
 		var n int
@@ -193,6 +195,9 @@ func c11ReadOne(c *mc.Ctx, k c11Read, in []byte) {
 			x := thrift.NewApplicationException(0, "")
 			n, err = x.FastRead(in)
 			got.S[0], got.I = x.Msg(), x.TypeID()
+		}
+		for i := range in { // the caller reuses its buffer: decoded fields must not alias it
+			in[i] = 0xEE
 		}
 		if err != nil {
 			bad("error", "failed on a well-formed struct: %v", err)
